@@ -26,6 +26,6 @@ git clean -fdq
 echo "== check $P $TIER against the patched tree"
 ( cd /verif && VERIF_REPO=$WT bin/check $P $TIER > $SRC/check.log 2>&1 ); C=$?
 grep -E "^(VIOLATION|FAILURE|OK|INCONCLUSIVE|BUILD|KNOWN)" $SRC/check.log | cut -c1-220 | head -6
-rm -rf /verif/replays/$P/found
+# (scratch runs write their found-replays under /tmp, nothing to clean in /verif)
 git checkout -q -- . ; git clean -fdq
 echo "RESULT prop=$P patch=$X build=$B demo_without=$W0 demo_with=$W1 check_exit=$C"
